@@ -570,6 +570,14 @@ func runParser(files map[string]string, cfg parserCfg, perRecord func(dns.RR)) (
 	return out, viol
 }
 
+// runawayHeap: growth of the live heap during one parse that ends the run (see runParserOnce).
+const runawayHeap = 2 << 30
+
+var (
+	heapTicker *time.Ticker
+	heapStats  runtime.MemStats
+)
+
 // confirmRuns: how often a resource reading above its bound is measured again.
 const confirmRuns = 3
 
@@ -604,6 +612,8 @@ func runParserOnce(files map[string]string, cfg parserCfg, perRecord func(dns.RR
 	done := make(chan result, 1)
 	wd := watchdogFor(files) // before the parse starts: it scans (and copies) every file
 	timer := time.NewTimer(wd)
+	runtime.ReadMemStats(&heapStats)
+	heapStart := heapStats.HeapAlloc
 	go func() {
 		out := &outcome{}
 		var viol error
@@ -715,8 +725,23 @@ func runParserOnce(files map[string]string, cfg parserCfg, perRecord func(dns.RR
 	// (nothing that allocates may run on this goroutine between the start of the parse and its
 	// end: the allocation counter read inside the parse goroutine is that of the whole process)
 	var res result
+	ticker := heapTicker
+	if ticker == nil {
+		heapTicker = time.NewTicker(250 * time.Millisecond)
+		ticker = heapTicker
+	}
+wait:
 	select {
 	case res = <-done:
+	case <-ticker.C:
+		// a parse that does not end can also eat memory without end (tens of MB per second);
+		// the live heap of the test process is otherwise a few dozen MB
+		runtime.ReadMemStats(&heapStats)
+		if heapStats.HeapAlloc > heapStart+runawayHeap {
+			hangSeen = true
+			return &outcome{}, fmt.Errorf("the heap in use grew from %d to %d octets while %d octets of input were being parsed and the parse has not ended: unbounded memory (process ends here)", heapStart, heapStats.HeapAlloc, len(top)), false
+		}
+		goto wait
 	case <-timer.C:
 		// a parse that is merely slow (loaded machine) ends when it is given more time, a hang
 		// does not: the same parse gets three more periods before it is called a hang
@@ -825,9 +850,10 @@ func runParserOnce(files map[string]string, cfg parserCfg, perRecord func(dns.RR
 		line, _ := strconv.Atoi(mm[1])
 		ftxt := files[file]
 		maxLine := countLines(ftxt) + 1
-		if countGenerate(ftxt) > 0 {
-			// positions inside the expansion of a $GENERATE count generated lines; a template can
-			// hold line ends of its own (inside quotes), at most those of the whole file per step
+		if countGenerate(ftxt) > 0 && genLineRelaxed != nil && genLineRelaxed() {
+			// known finding generate-error-line: positions inside the expansion of a $GENERATE
+			// count generated lines; a template can hold line ends of its own (inside quotes), at
+			// most those of the whole file per step
 			maxLine += 65536 * countLines(ftxt)
 		}
 		if line < 1 || line > maxLine {
@@ -876,6 +902,10 @@ func depthLimit(files map[string]string, opens []string, top string) int {
 	}
 	return depthBase + 8*n
 }
+
+// genLineRelaxed: while the known finding generate-error-line is listed and reproduces, the line
+// of an error may lie in the generated text instead of the file.
+var genLineRelaxed func() bool
 
 // runParserDepth is runParser with the flat depth limit (for the probe of the known finding).
 func runParserDepth(files map[string]string, cfg parserCfg) (*outcome, error) {
